@@ -51,7 +51,13 @@ def unit_golden(a):
     return pc.unit_golden(proj_c06, WHAT)
 
 
+def unit_modes(a):
+    return pc.unit_modes(proj_c06, WHAT)
+
+
 def replay(case, stats):
+    if case["sub"] == "modes":
+        return pc.check_modes(case, stats, proj_c06, WHAT)
     if case["sub"] == "golden":
         return pc.replay_golden(case, proj_c06, WHAT)
     if case["sub"] in ("text", "rawtext"):
@@ -69,6 +75,7 @@ def run(ctx):
     pc.calibrate()
     q = ctx.quick
     ctx.units("golden", unit_golden, [{}])
+    ctx.units("interpreter-modes", unit_modes, [{}])
     ctx.units("ast-hypothesis", unit_ast, [{"n": 1500 if q else 20000, "seed": ctx.seed, "shard": i} for i in range(8 if q else 16)], procs=16)
     from . import c07
     ctx.units("shared-compiler-threads", c07.unit_shared, [{"reps": 10 if q else 100}])
